@@ -20,6 +20,7 @@ stubs of callees) except for directive blocks of the form
     //@ closure at="<text at which the closure starts>" params="<typed params>" ret="<(r: U)>"
     <requires / ensures lines for that closure>
     //@ insert before|after|entry "<anchor text>"
+    //@ insert loop-start|loop-end <k>      (structural: first/last position inside the k-th source loop's body)
     <ghost lines>
     //@end
 
@@ -569,9 +570,14 @@ def parse_template(text):
                     d.tails.append((parse_kv(arg), sec_lines))
                 elif kind == 'insert':
                     mm = re.match(r'^(before|after|entry)\s*(?:"((?:[^"\\]|\\.)*)")?\s*$', arg.strip())
-                    if not mm:
+                    ml = re.match(r'^(loop-start|loop-end)\s+(\d+)\s*$', arg.strip())
+                    if ml:
+                        # structural anchor: first/last position inside the body of the k-th source loop
+                        d.inserts.append((ml.group(1), int(ml.group(2)), sec_lines))
+                    elif not mm:
                         raise LiftError("template line %d: bad insert directive %r" % (start_line, arg))
-                    d.inserts.append((mm.group(1), unesc(mm.group(2) or ''), sec_lines))
+                    else:
+                        d.inserts.append((mm.group(1), unesc(mm.group(2) or ''), sec_lines))
                 section, sec_lines = None, None
 
             for ln2 in body[j:]:
@@ -870,6 +876,20 @@ def lift_one(d, repo, canary=False, rename_suffix=None):
         txt = '\n'.join(lines) + '\n'
         if mode == 'entry':
             body.insert(1, '\n' + txt)
+        elif mode in ('loop-start', 'loop-end'):
+            lp = [(off, kw) for (off, kw) in loop_positions(body, 0, len(body.s)) if body.o[off] is not None]
+            if anchor < 1 or anchor > len(lp):
+                raise LiftError("%s: insert %s: loop %d not found (body has %d loops)" % (info['name'], mode, anchor, len(lp)))
+            bo = loop_body_open(body, lp[anchor - 1][0])
+            if mode == 'loop-start':
+                body.insert(bo + 1, '\n' + txt)
+            else:
+                bc = match_close(body.s, body.k, bo)
+                ls = body.s.rfind('\n', 0, bc) + 1
+                if body.s[ls:bc].strip() == '':
+                    body.insert(ls, txt)
+                else:
+                    body.insert(bc, '\n' + txt)
         else:
             offs = []
             p = body.s.find(anchor)
